@@ -419,6 +419,19 @@ def check(F, rep, tier):
     for g_, bi, c in unl:
         rep.bad("R13.8", "recursion-limit-off:" + g_.path.replace("crate::", "").rsplit("::", 1)[-1], "%s parses input with %s: a deeply nested document (e.g. 100k '[' in vars.custom on stdin) overflows the stack and aborts instead of failing with an error" % (g_.path.rsplit("::", 1)[-1], c.rsplit("::", 2)[-2] + "::" + c.rsplit("::", 1)[-1]), "%s bb%d line %s" % (g_.where(), bi, g_.blocks[bi]["line"]))
     if not unl: rep.ok("R13.8", "no reachable parser call switches its recursion limit off (ron / serde_json defaults are kept)", nontrivial_key="reclimit")
+    # ---- R13.9 std APIs that panic on non-UTF-8 input from the operating system --------------------------------------------------------
+    # (`std::env::args()` / `vars()` yield Strings and panic during iteration when an argument / variable is not valid Unicode; the
+    # panic is inside std, so the inventory of local panic sites does not contain it)
+    osp = []
+    for p_ in sorted(reach | {ROOT.rsplit("::", 1)[0] + "::run"}):
+        g_ = F.fn(p_)
+        if g_ is None or "::tests" in p_ or "test_utils" in p_: continue
+        for bi, t in g_.calls():
+            c = mir.callee(t) or ""
+            if c in ("std::env::args", "std::env::vars"): osp.append((g_, bi, c))
+    for g_, bi, c in osp:
+        rep.bad("R13.9", "os-string-panic:%s:%s" % (g_.path.replace("crate::", "").rsplit("::", 1)[-1], c.rsplit("::", 1)[-1]), "%s reads the process %s with %s(), which panics while iterating if one of them is not valid UTF-8 (`zerv check $'\\xff'` exits with status 101 and a panic message instead of an error)" % (g_.path.rsplit("::", 1)[-1], "arguments" if c.endswith("args") else "environment", c), "%s bb%d line %s" % (g_.where(), bi, g_.blocks[bi]["line"]))
+    if not osp: rep.ok("R13.9", "process arguments / environment are read through the OsString APIs (no panic on non-UTF-8)", nontrivial_key="osargs")
     # the audited unwraps of LocalSegment::try_new_str rest on "every resolved value is a sanitiser output" (C01 R01.2)
     core.borrow(F, rep, "c01", "C01", "R13.1", ("R01.2:unsanitised",), "values that reach LocalSegment::try_new_str(..).unwrap() are sanitiser outputs")
     return core.finish(rep, explanation=EXPL, assumptions=ASSUME, trusted=TRUST)
